@@ -122,11 +122,11 @@ type WorkerSummary struct {
 // FoundViolation is a violation with its replay file
 type FoundViolation struct {
 	Violation
-	RunIndex int    `json:"run_index"`
-	Seed     uint64 `json:"seed"`
-	Replay   string `json:"replay"`
-	Count    int    `json:"count"`
-	Minimised bool  `json:"minimised"`
+	RunIndex  int    `json:"run_index"`
+	Seed      uint64 `json:"seed"`
+	Replay    string `json:"replay"`
+	Count     int    `json:"count"`
+	Minimised bool   `json:"minimised"`
 }
 
 func hash64(parts ...any) uint64 {
@@ -145,7 +145,10 @@ func scenarioHash(sc any) uint64 {
 }
 
 // Worker runs a slice of run indices and returns the summary
-func Worker(t *testing.T, worldName, profile, property, tier string, base uint64, from, to int, replayDir string, budget time.Duration) *WorkerSummary {
+func Worker(t *testing.T, worldName, profile, property, tier string, base uint64, from, to, stride int, replayDir string, budget time.Duration) *WorkerSummary {
+	if stride < 1 {
+		stride = 1
+	}
 	w := worlds[worldName]
 	if w == nil {
 		return &WorkerSummary{Harness: "unknown world " + worldName}
@@ -155,7 +158,7 @@ func Worker(t *testing.T, worldName, profile, property, tier string, base uint64
 	nontriv := map[uint64]bool{}
 	seen := map[string]*FoundViolation{}
 	wallStart := time.Now()
-	for idx := from; idx < to; idx++ {
+	for idx := from; idx < to; idx += stride {
 		if budget > 0 && time.Since(wallStart) > budget {
 			break
 		}
